@@ -1,6 +1,7 @@
 package fs
 
 import (
+	"archive/tar"
 	"bytes"
 	"database/sql"
 	"io"
@@ -111,19 +112,25 @@ func (f *File) syncWithoutLocking() error {
 
 	if f.writeBuf != nil {
 		// Don't resurrect a file that has been removed while it was open
-		if _, err := inventory.Stat(
+		current, err := inventory.Stat(
 			f.metadata,
 
 			f.path,
 			false,
 
 			f.onHeader,
-		); err != nil {
+		)
+		if err != nil {
 			if err == sql.ErrNoRows {
 				return os.ErrNotExist
 			}
 
 			return err
+		}
+
+		// A directory which has taken the name in the meantime is not a file to write to
+		if current.Typeflag == tar.TypeDir {
+			return config.ErrIsDirectory
 		}
 
 		done := false
